@@ -380,8 +380,9 @@ def cases(tier, seed):
         cs.append(case([3], "script", prune=False))
         for s in ([2, 2], [3, 1], [1, 1, 1], [2, 2, 2], [3, 3]):
             cs.append(case(s, "script"))
-        for s in ([2, 1], [1, 2], [3]):
+        for s in ([2, 1], [1, 2], [3], [2, 2], [3, 1], [1, 1, 1]):
             cs.append(case(s, "greedy"))
+        cs.append(case([2, 1], "script", prune=False))
     return cs
 
 
